@@ -531,3 +531,19 @@ def disk_snapshot(folder, include_hidden=False):
             except OSError:
                 snap[os.path.join(rel, f)] = "?"
     return snap
+
+
+_RIGHTS_FILE = None
+
+
+def permissive_rights():
+    """config fragment: a from_file policy granting everything to everybody (plain collections at any depth)"""
+    global _RIGHTS_FILE
+    if _RIGHTS_FILE is None or not os.path.exists(_RIGHTS_FILE):
+        f = tempfile.NamedTemporaryFile("w", prefix="rverif-rights-", suffix=".ini", delete=False)
+        f.write("[all]\nuser: .*\ncollection: .*\npermissions: RrWw\n")
+        f.close()
+        _RIGHTS_FILE = f.name
+        import atexit
+        atexit.register(lambda: os.path.exists(_RIGHTS_FILE) and os.unlink(_RIGHTS_FILE))
+    return {"type": "from_file", "file": _RIGHTS_FILE}
